@@ -15,6 +15,9 @@ Clauses(e) ==
       <<"residual-orthogonal-to-regressors", e.raised \/ Small(e.orth_dev, Tol)>>,
       <<"error-is-the-minimum", e.raised \/ Small(e.err_dev, Tol)>>,
       <<"p-coefficients", e.raised \/ e.len_ok>>,
+      \* the minimiser is unique when the regressors have full rank: compare the coefficients themselves, to the
+      \* accuracy the condition number allows (cond_k = cond/1e3: tolerance cond * 1e-12, at least 1e-7; cond > 1e9 exempt)
+      <<"coefficients-of-the-unique-minimiser", e.raised \/ ~e.len_ok \/ e.cond_k > 1000000 \/ e.coef_dev <= Max(100, e.cond_k)>>,
       <<"recovers-noiseless-exponentials", e.raised \/ ~e.noiseless \/ (Small(e.freq_dev, 100000) /\ Small(e.err_rel, Tol))>>,
       <<"fast-recursion-defined", e.raised \/ e.fast_defined>>,
       <<"fast-recursion-same-solution", e.raised \/ (Small(e.fast_dev, 100000) /\ e.fast_tail_zero)>> }
